@@ -70,6 +70,31 @@ def tree_to_hu(rng, tree):
         out = out[:i] + [["H", 0, out[i:j]]] + out[j:]
     return out
 
+def lengthify(r, text):
+    """the same component with two of its quoted multipliers written through a `length` variable that is defined right after the
+    declare line, re-assigned just before its first use and re-assigned again before its second use (values differ): the
+    hand expansion is the original text.  `r` is a generator of its own, so the caller's stream is not disturbed."""
+    if "zq" in text: return text
+    lines = text.split("\n")
+    decl = [i for i, l in enumerate(lines) if re.match(r"\s*declare\b", l)]
+    if not decl: return text
+    cands = []
+    for li, l in enumerate(lines):
+        if li <= decl[0] or "#" in l or re.match(r"\s*(length|declare)\b", l): continue
+        for q in re.finditer(r'"[^"]*"', l):
+            for m in re.finditer(r'(?<![\w<>?])(\d+)([A-Za-z])', q.group(0)):
+                cands.append((li, q.start() + m.start(1), q.start() + m.end(1), int(m.group(1))))
+    if not cands: return text
+    first = r.choice(cands)
+    later = [c for c in cands if c[0] > first[0] and c[3] != first[3]]
+    picks = [first] + ([r.choice(later)] if later else [])
+    off = r.choice([1, 2, 3])
+    for (li, a, b, k) in sorted(picks, reverse=True):          # bottom-up: insertions do not move the lines above
+        lines[li] = lines[li][:a] + "<zq>" + lines[li][b:]
+        lines.insert(li, "length zq = zq - %d" % off if (li, a, b, k) == first else "length zq = zq * 0 + %d" % k)
+    lines.insert(decl[0] + 1, "length zq = %d" % (first[3] + off))
+    return "\n".join(lines)
+
 def hu_text(rng, hu):
     parts = []
     for t in hu:
